@@ -10,7 +10,11 @@
 // event: {"ev":"reset","now":t} | {"ev":"adv","d":d}
 //
 //	| {"ev":"req","id":..,"sq":sequence id,"method":..,"url":[[host labels],[path segments]],"qry":[[k,v],..],"hdr":{..},"body":..}
-//	| {"ev":"res","id":..,"sq":..,"method":..,"url":..,"status":n,"hdr":{..},"body":..} | {"ev":"err","id":..}
+//	| {"ev":"res","id":..,"sq":..,"method":..,"url":..,"status":n,"hdr":{..},"body":..,"chain":[n,..]} | {"ev":"err","id":..}
+//
+// When the answer to a response asks for a retry the executor does what the proxy does: it sends the request of that sequence
+// again (new transaction id "<id>.r<k>", same sequence id) and hands the next status of "chain" back as the provider's answer -
+// as long as the engine asks for retries and the chain lasts.  Re-sent transactions are recorded like any other ("resent": true).
 //
 // One tick = 500 ms.
 package main
@@ -55,6 +59,7 @@ type Event struct {
 	Hdr    map[string]string `json:"hdr,omitempty"`
 	Body   string            `json:"body,omitempty"`
 	Status int               `json:"status,omitempty"`
+	Chain  []int             `json:"chain,omitempty"` // statuses of the provider's answers to the re-sent requests, should the engine ask for retries
 }
 
 type Script struct {
@@ -319,7 +324,10 @@ func decode(as action.Actions) Out {
 
 // ------------------------------------------------------------------ one transaction
 
-var shared = lunar_context.NewMemoryState[[]byte]()
+var (
+	shared  = lunar_context.NewMemoryState[[]byte]()
+	lastReq = map[string]Event{} // sequence id -> its request (what the proxy sends again on a retry)
+)
 
 func copyHdr(h map[string]string) map[string]string {
 	m := map[string]string{}
@@ -521,15 +529,36 @@ func main() {
 						vh.Die("engine: %v", err)
 					}
 					shared = lunar_context.NewMemoryState[[]byte]()
+					lastReq = map[string]Event{}
 					tr.Add(vh.Ev{"ev": "reset", "now": now})
 				case "adv":
 					now += e.D
 					eng.Clk.Set(at(now))
 					tr.Add(vh.Ev{"ev": "adv", "d": e.D})
 				case "req":
+					lastReq[sq(e)] = e
 					tr.Add(doRequest(eng, e))
 				case "res":
-					tr.Add(doResponse(eng, e))
+					ev := doResponse(eng, e)
+					tr.Add(ev)
+					for k := 0; k < len(e.Chain) && ev["out"].(Out).Retry; k++ {
+						re, known := lastReq[sq(e)]
+						if !known {
+							break
+						}
+						re.ID, re.Sq = fmt.Sprintf("%s.r%d", e.ID, k+1), sq(e)
+						rev := doRequest(eng, re)
+						rev["resent"] = true
+						tr.Add(rev)
+						if rev["out"].(Out).Early || rev["outcome"] != "ok" {
+							break
+						}
+						rs := e
+						rs.ID, rs.Sq, rs.Status, rs.Chain = re.ID, sq(e), e.Chain[k], nil
+						ev = doResponse(eng, rs)
+						ev["resent"] = true
+						tr.Add(ev)
+					}
 				case "err":
 					eng.S.OnError(e.ID)
 					tr.Add(vh.Ev{"ev": "err", "id": e.ID})
